@@ -16,6 +16,9 @@ for d in seeded/*/ mutants/*/; do
     C07-q|C07-r) p="C07 C01";;   # round 9: engine-level accumulation at expansion factor 1 - the total derivative is C01's
     C12-r) p="C12 C13";;         # round 9: changes the loss by less than the conditioning of log(1-p) at the clipping bound (it is closer to the defined value); the gradient at a clipped prediction is C13's
     C11-q) p="C11 C15";;         # round 9: tie weight of ElMax/ElMin when only some elements tie - the derivative at the kink is C15's
+    C02-x) p="C02 C09";;   # round 12: a second back-propagation through one StdAlong application panics - outside C02's single application, inside "never a panic"
+    C06-w) p="C06 C10";;   # round 12: Zeros / Ones keep the caller's dims slice - decoupling from caller-owned slices is C10's
+    C11-x) p="C11 C02";;   # round 12: all-ones seed built as root.Eq(root) (0 for an infinite root value) - the derivative of an overflowing result is C02's
     C01-p) p="C01 C02";;   # round 8: the StdAlong rule at a spread below 1e-12 - single-operation values are C02's
     C*) p=${n%%-*};;
     revert-fix1) p="C01 C13 C15 C11";; revert-fix2) p=C02;; revert-fix3) p=C02;; revert-fix4) p="C02 C13 C15";;
